@@ -24,12 +24,12 @@ const (
 func (k SolverKind) String() string { return [...]string{"z3", "z3-new", "cvc5"}[k] }
 
 type Solver struct {
-	kind    SolverKind
-	cmd     *exec.Cmd
-	in      io.WriteCloser
-	out     *bufio.Reader
-	timeout int // ms per check
-	dead    bool
+	kind      SolverKind
+	cmd       *exec.Cmd
+	in        io.WriteCloser
+	out       *bufio.Reader
+	timeout   int // ms per check
+	dead      bool
 	tactic    string
 	tacticOff bool
 	stateless bool
